@@ -341,4 +341,71 @@ SPEC = {
                                       "target": "body", "params": {"prev_data": R, "next_data": R, "sample_at": R, "step_time": R}},
         },
     },
+    "NeuronSites": {
+        "uses": ["NeuronDynamics", "NeuronAdaptation"],
+        "sites": {
+            **{f"{cls}__integrate_v": {
+                "file": f"inferno/neural/neurons/{fl}.py", "cls": cls, "method": "_integrate_v", "target": "return",
+                "rename": {f"nf.voltage_integration_{kern}": f"voltage_integration_{kern}", "self.voltage": "voltage",
+                           "self.step_time": "step_time", f"self.{tc}": "time_constant", "self.rest_v": "rest_v",
+                           "self.resistance": "resistance", **extra},
+                "params": {"masked_inputs": R, "voltage": R, "step_time": R, "rest_v": R, **{v: R for v in extra.values()},
+                           "time_constant": R, "resistance": R}}
+               for fl, cls, kern, tc, extra in (
+                   ("linear", "LIF", "linear", "time_constant", {}),
+                   ("linear", "ALIF", "linear", "tc_membrane", {}),
+                   ("linear", "GLIF2", "linear", "tc_membrane", {}),
+                   ("nonlinear", "QIF", "quadratic", "time_constant", {"self.crit_v": "crit_v", "self.affinity": "affinity"}),
+                   ("nonlinear", "Izhikevich", "quadratic", "tc_membrane", {"self.crit_v": "crit_v", "self.affinity": "affinity"}),
+                   ("nonlinear", "EIF", "exponential", "time_constant", {"self.rheobase_v": "rheobase_v", "self.sharpness": "sharpness"}),
+                   ("nonlinear", "AdEx", "exponential", "tc_membrane", {"self.rheobase_v": "rheobase_v", "self.sharpness": "sharpness"}))},
+            **{f"{cls}_threshold": {
+                "file": f"inferno/neural/neurons/{fl}.py", "cls": cls, "method": "forward", "target": "(spikes, voltages, refracs)",
+                "rename": {f"nf.voltage_thresholding_{th}": f"voltage_thresholding_{th}", "self.refrac": "refrac",
+                           "self._integrate_v": "dynamics", "self.voltage": "voltage", "self.step_time": "step_time",
+                           "self.refrac_t": "refrac_t", **ren},
+                "params": {"inputs": R, "refrac": R, "dynamics": "fn", "voltage": R, "refrac_lock": B, "step_time": R, **par, "refrac_t": R}}
+               for fl, cls, th, ren, par in (
+                   ("linear", "LIF", "constant", {"self.reset_v": "reset_v", "self.thresh_v": "thresh_v"}, {"reset_v": R, "thresh_v": R}),
+                   ("linear", "ALIF", "constant", {"self.reset_v": "reset_v", "self.thresh_eq_v": "thresh_eq_v",
+                                                   "nf.apply_adaptive_thresholds": "apply_adaptive_thresholds",
+                                                   "self.threshold_adaptation": "threshold_adaptation"},
+                    {"reset_v": R, "thresh_eq_v": R, "threshold_adaptation": V}),
+                   ("linear", "GLIF2", "linear", {"self.rest_v": "rest_v", "self.reset_v_mul": "reset_v_mul", "self.reset_v_add": "reset_v_add",
+                                                  "self.thresh_eq_v": "thresh_eq_v", "nf.apply_adaptive_thresholds": "apply_adaptive_thresholds",
+                                                  "self.threshold_adaptation": "threshold_adaptation"},
+                    {"rest_v": R, "reset_v_mul": R, "reset_v_add": R, "thresh_eq_v": R, "threshold_adaptation": V}),
+                   ("nonlinear", "QIF", "constant", {"self.reset_v": "reset_v", "self.thresh_v": "thresh_v"}, {"reset_v": R, "thresh_v": R}),
+                   ("nonlinear", "Izhikevich", "constant", {"self.reset_v": "reset_v", "self.thresh_v": "thresh_v",
+                                                            "nf.apply_adaptive_currents": "apply_adaptive_currents",
+                                                            "self.current_adaptation": "current_adaptation"},
+                    {"reset_v": R, "thresh_v": R, "current_adaptation": V}),
+                   ("nonlinear", "EIF", "constant", {"self.reset_v": "reset_v", "self.thresh_v": "thresh_v"}, {"reset_v": R, "thresh_v": R}),
+                   ("nonlinear", "AdEx", "constant", {"self.reset_v": "reset_v", "self.thresh_v": "thresh_v",
+                                                      "nf.apply_adaptive_currents": "apply_adaptive_currents",
+                                                      "self.current_adaptation": "current_adaptation"},
+                    {"reset_v": R, "thresh_v": R, "current_adaptation": V}))},
+            **{f"{cls}_adaptation": {
+                "file": f"inferno/neural/neurons/{fl}.py", "cls": cls, "method": "forward", "target": "adaptations",
+                "rename": {f"nf.{fn}": fn, "self.refrac": "refracs", "self.step_time": "step_time", "self.adapt_increment": "adapt_increment", **ren},
+                "params": par}
+               for fl, cls, fn, ren, par in (
+                   ("linear", "ALIF", "adaptive_thresholds_linear_spike",
+                    {"self.threshold_adaptation": "threshold_adaptation", "self.tc_adaptation": "tc_adaptation"},
+                    {"threshold_adaptation": V, "spikes": B, "step_time": R, "tc_adaptation": V, "adapt_increment": V, "refracs": R, "refrac_lock": B}),
+                   ("linear", "GLIF2", "adaptive_thresholds_linear_spike",
+                    {"self.threshold_adaptation": "threshold_adaptation", "self.rc_adaptation": "rc_adaptation"},
+                    {"threshold_adaptation": V, "spikes": B, "step_time": R, "rc_adaptation": V, "adapt_increment": V, "refracs": R, "refrac_lock": B}),
+                   ("nonlinear", "Izhikevich", "adaptive_currents_linear",
+                    {"self.current_adaptation": "current_adaptation", "self.rest_v": "rest_v", "self.tc_adaptation": "tc_adaptation",
+                     "self.adapt_vc_coupling": "adapt_vc_coupling"},
+                    {"current_adaptation": V, "voltages": R, "spikes": B, "step_time": R, "rest_v": R, "tc_adaptation": V,
+                     "adapt_vc_coupling": V, "adapt_increment": V, "refracs": R, "refrac_lock": B}),
+                   ("nonlinear", "AdEx", "adaptive_currents_linear",
+                    {"self.current_adaptation": "current_adaptation", "self.rest_v": "rest_v", "self.tc_adaptation": "tc_adaptation",
+                     "self.adapt_vc_coupling": "adapt_vc_coupling"},
+                    {"current_adaptation": V, "voltages": R, "spikes": B, "step_time": R, "rest_v": R, "tc_adaptation": V,
+                     "adapt_vc_coupling": V, "adapt_increment": V, "refracs": R, "refrac_lock": B}))},
+        },
+    },
 }
